@@ -23,7 +23,7 @@ RULE = ("texts: (a) random strings <=200 chars over a weighted alphabet of synta
         "nesting, depth 31-120 and 1500-6000. Non-trivial = the input yields >=2 models or raises; "
         "distinct by text.")
 FLOOR = {"quick": 5000, "thorough": 5000}
-BUDGET = {"quick": 30, "thorough": 540}
+BUDGET = {"quick": 25, "thorough": 540}
 CASE_TIMEOUT = 45
 REPLAY_TIMEOUT = 280
 NEEDS_EVENTS = True
